@@ -2512,7 +2512,13 @@ fn convert_value_to_type2<'a>(
         // Remove quotes
         let text_content = &text[1..text.len() - 1];
         // Handle escape sequences
-        let unescaped = unescape_text(text_content);
+        let unescaped = try_unescape_text(text_content).ok_or_else(|| Error::PARSER {
+          position: pest_span_to_position(&inner.as_span(), input),
+          msg: ErrorMsg {
+            short: "Invalid escape sequence in text value".to_string(),
+            extended: None,
+          },
+        })?;
         return Ok(ast::Type2::TextValue {
           value: Cow::Owned(unescaped),
           span,
@@ -2549,7 +2555,12 @@ fn convert_value_to_type2<'a>(
         // Remove quotes
         let text_content = &text[1..text.len() - 1];
         // Handle escape sequences
-        let unescaped = unescape_text(text_content);
+        let unescaped = try_unescape_text(text_content).ok_or_else(|| Error::PARSER {
+          msg: ErrorMsg {
+            short: "Invalid escape sequence in text value".to_string(),
+            extended: None,
+          },
+        })?;
         return Ok(ast::Type2::TextValue {
           value: Cow::Owned(unescaped),
         });
@@ -2569,8 +2580,10 @@ fn convert_value_to_type2<'a>(
   })
 }
 
-/// Unescape text value (supports RFC 9682 \u{hex} escapes and surrogate pairs)
-fn unescape_text(text: &str) -> String {
+/// Unescape text value (supports RFC 9682 \u{hex} escapes and surrogate pairs).
+/// Returns `None` if an escape does not denote a Unicode scalar value (a code
+/// point beyond U+10FFFF or an unpaired surrogate)
+fn try_unescape_text(text: &str) -> Option<String> {
   let mut result = String::new();
   let mut chars = text.chars();
 
@@ -2594,37 +2607,27 @@ fn unescape_text(text: &str) -> String {
               // Consume the '{'
               chars.next();
               let hex: String = chars.by_ref().take_while(|c| *c != '}').collect();
-              if let Ok(code_point) = u32::from_str_radix(&hex, 16) {
-                if let Some(unicode_char) = char::from_u32(code_point) {
-                  result.push(unicode_char);
-                }
-              }
+              let code_point = u32::from_str_radix(&hex, 16).ok()?;
+              result.push(char::from_u32(code_point)?);
             } else {
               // Standard \uXXXX form
               let hex: String = chars.by_ref().take(4).collect();
-              if let Ok(code_point) = u32::from_str_radix(&hex, 16) {
-                // Check for surrogate pair: \uHHHH\uLLLL
-                if (0xD800..=0xDBFF).contains(&code_point) {
-                  // High surrogate - look for \uLLLL
-                  let mut peekable2 = chars.clone();
-                  if peekable2.next() == Some('\\') && peekable2.next() == Some('u') {
-                    // Consume \u
-                    chars.next();
-                    chars.next();
-                    let low_hex: String = chars.by_ref().take(4).collect();
-                    if let Ok(low_surrogate) = u32::from_str_radix(&low_hex, 16) {
-                      if (0xDC00..=0xDFFF).contains(&low_surrogate) {
-                        let combined =
-                          0x10000 + ((code_point - 0xD800) << 10) + (low_surrogate - 0xDC00);
-                        if let Some(unicode_char) = char::from_u32(combined) {
-                          result.push(unicode_char);
-                        }
-                      }
-                    }
-                  }
-                } else if let Some(unicode_char) = char::from_u32(code_point) {
-                  result.push(unicode_char);
+              let code_point = u32::from_str_radix(&hex, 16).ok()?;
+              if (0xD800..=0xDBFF).contains(&code_point) {
+                // High surrogate - must be followed by \uLLLL
+                if chars.next() != Some('\\') || chars.next() != Some('u') {
+                  return None;
                 }
+                let low_hex: String = chars.by_ref().take(4).collect();
+                let low_surrogate = u32::from_str_radix(&low_hex, 16).ok()?;
+                if !(0xDC00..=0xDFFF).contains(&low_surrogate) {
+                  return None;
+                }
+                let combined = 0x10000 + ((code_point - 0xD800) << 10) + (low_surrogate - 0xDC00);
+                result.push(char::from_u32(combined)?);
+              } else {
+                // An unpaired low surrogate is not a scalar value
+                result.push(char::from_u32(code_point)?);
               }
             }
           }
@@ -2639,7 +2642,12 @@ fn unescape_text(text: &str) -> String {
     }
   }
 
-  result
+  Some(result)
+}
+
+#[cfg(test)]
+fn unescape_text(text: &str) -> String {
+  try_unescape_text(text).unwrap_or_default()
 }
 
 /// Convert number to Type2
